@@ -391,7 +391,7 @@ func runC13(ctx *Ctx) *Result {
 	for _, es := range corpus {
 		runHistory(es, ctx.Rng.Fork())
 	}
-	n := ctx.N(500, 12000)
+	n := ctx.N(500, 6000)
 	maxLen := ctx.N(12, 20)
 	for i := 0; i < n; i++ {
 		rng := ctx.Rng.Fork()
